@@ -63,6 +63,28 @@ Definition rib_site {R P O} (filter : option (P -> bool * list out))
   let '(r', res, ds) := rib_loop filter render insert r ps in
   (r', ds ++ match res with [] => [] | _ => [DUpd res] end).
 
+(* a whole session / a whole stream of updates: the call site applied to every
+   item in turn *)
+Fixpoint msg_run {S M U O} (flt : option (M -> bool * list out)) (render : M -> out -> option O)
+    (process : S -> M -> S * list U) (s : S) (ms : list M) : S * list (down U O) :=
+  match ms with
+  | [] => (s, [])
+  | m :: ms' =>
+      let '(s1, ds) := msg_site flt render process s m in
+      let '(s2, ds') := msg_run flt render process s1 ms' in
+      (s2, ds ++ ds')
+  end.
+
+Fixpoint rib_run_site {R P O} (flt : option (P -> bool * list out)) (render : P -> out -> option O)
+    (insert : R -> P -> R) (r : R) (us : list (list P)) : R * list (down (list P) O) :=
+  match us with
+  | [] => (r, [])
+  | ps :: us' =>
+      let '(r1, ds) := rib_site flt render insert r ps in
+      let '(r2, ds') := rib_run_site flt render insert r1 us' in
+      (r2, ds ++ ds')
+  end.
+
 (* ------------------------------------------------------------------ *)
 (* How each call site turns an Output entry into an OutputStreamMessage.
    topic: 0 prefix, 1 community, 2 asn, 3 origin, 4 peerdown, 5 custom. *)
